@@ -30,6 +30,8 @@ class ProgGen:
         self.linebase = (actor + 1) * 100000 if actor is not None else 500
         self.incno = 0
         self.labelno = 0
+        self.name_pool_rate = 0.3   # share of #line file names taken from a small pool of spellings
+        self.directive_rate = 0.10  # share of top-level items that are line directives
 
     # -- scope model ---------------------------------------------------------
     def kind(self, name):
@@ -289,6 +291,10 @@ class ProgGen:
         r = self.rng
         self.incno += 1
         fn = "inc%s_%d.h" % (self.actor if self.actor is not None else "x", self.incno)
+        if r.random() < self.name_pool_rate:
+            # a small pool of names in several spellings (case, slash direction, ./)
+            base = "inc%s_0.h" % (self.actor if self.actor is not None else "x")
+            fn = r.choice([base, base.upper(), "dir/" + base, "dir\\\\" + base, "Dir/" + base.capitalize(), "./" + base])
         ln = self.linebase + r.randrange(1000, 90000)
         x = r.random()
         if r.random() < 0.2:
@@ -412,8 +418,8 @@ class ProgGen:
             return self.decl()
         if x < 0.75:
             return self.funcdef()
-        if x < 0.85:
-            return self.pragma()
+        if x < 0.95 - self.directive_rate:
+            return self.pragma() if x >= 0.75 else self.funcdef()
         if x < 0.95:
             return self.line_directive()
         return r.choice([";", "_Static_assert(1, \"ok\");", "int;", "struct S1;", "#pragma"])
@@ -496,6 +502,17 @@ FAILING_SNIPPETS = [
     ["typedef int T;", "void f(void) { int a = 08; }"],
     ["typedef int T;", "void f(void) {", "_Pragma(\"x\"", "}"],
     ["typedef int T;", "int a[] = { [", "#pragma pack"],
+    # one stray closing bracket (scope underflow instead of scopes left open)
+    ["typedef int T }", "int after;"],
+    ["typedef int U, V }", "U u;"],
+    ["int x }", "T y;"],
+    ["int f }", "typedef int f;"],
+    ["struct S0 { int a; } } s;"],
+    ["enum E0 { x, y } };", "int x;"],
+    ["void f(void) { } }", "typedef int T;"],
+    ["int f(int x }", "T z;"],
+    ["typedef int T;", "T x = (1 });"],
+    ["typedef int y ]", "int z;"],
 ]
 
 ILLEGAL_FRAGMENTS = ["}", "{", ")", "(", "]", "};", "} ;", '# 7 "inc.h" 1 x', '#line 5 "a.h" 3 q', '# 3 "b.h" x', '# 9 "c.h" 1 2 3 4 5',
@@ -507,6 +524,19 @@ _TOKEN_RE = re.compile(
     r"""\s+|[A-Za-z_]\w*|\d[\w.]*|"(?:\\.|[^"\\\n])*"|'(?:\\.|[^'\\\n])*'|\#[^\n]*|<<=|>>=|\.\.\.|->|\+\+|--|<<|>>|<=|>=|==|!=|&&|\|\||[-+*/%&|^]=|.""",
     re.S,
 )
+
+
+def deep_program(rng, n=None):
+    """Nesting deep enough to need more Python stack than the default limit."""
+    n = n or rng.choice([60, 90, 120, 160, 220])
+    kind = rng.choice(["paren", "brace", "index", "init"])
+    if kind == "paren":
+        return ["typedef int T;", "int x = " + "(" * n + "1" + ")" * n + ";", "T after;"]
+    if kind == "brace":
+        return ["typedef int T;", "void f(void) " + "{ " * n + "T y;" + " }" * n, "T after;"]
+    if kind == "index":
+        return ["int a[2];", "int x = a" + "[a" * n + "[0]" + "]" * n + ";"]
+    return ["int m = " + "{" * n + "1" + "}" * n + ";"]
 
 
 def cheap_tokens(text):
